@@ -197,7 +197,9 @@ def path_spec(pt, style="long"):
 def rule_spec(rt, style="long", doc_form=None, cast_form=True):
     _, p, c, cast, doc = rt
     spec = {"path": [part_spec(x, style) for x in p[1]], "condition": cond_spec(c)}
-    if cast:
+    if cast == "empty":
+        spec["cast"] = {}
+    elif cast:
         spec["cast"] = {a: b for a, b in cast}
     if doc_form is not None:
         spec["doc"] = doc_form
